@@ -102,6 +102,12 @@ Theorem strict_agrees : forall fuel fs m top,
 Proof. exact strict_agrees_r. Qed.
 Print Assumptions strict_agrees.
 
+(* non-strict mode (reports printed as warnings) reads exactly like capture mode (reports collected) *)
+Theorem lenient_is_capture : forall fuel fs top,
+  parse_aux fuel fs Lenient top = parse_aux fuel fs Capture top.
+Proof. exact lenient_is_capture_l. Qed.
+Print Assumptions lenient_is_capture.
+
 (* error_location_stable: an error, once reported, is never touched again -- reading on only
    appends to the list of reported errors (each error holds its own copy of the context, so its
    file and line are those of the moment it was reported, whenever it is rendered) *)
@@ -181,6 +187,15 @@ Theorem make_bibliography_spec : forall fuel fs top a style_arg suffix,
 Proof. exact make_bibliography_spec_l. Qed.
 Print Assumptions make_bibliography_spec.
 
+(* when no file (transitively) inputs itself -- some rank decreases along \@input -- fuel above the
+   rank of the top file is never exhausted, so with fuel_irrelevant the reading is that of the document *)
+Theorem enough_fuel : forall fs (rank : str -> nat),
+  (forall name content l g, fs name = Some content -> In l (lines_of content) ->
+                            match_command l = Some (CInput, g) -> rank g < rank name) ->
+  forall fuel top, rank top < fuel -> doc_status fuel fs top <> Deep.
+Proof. exact enough_fuel_l. Qed.
+Print Assumptions enough_fuel.
+
 (* how the flattening treats the lines of a file (numbered from 1): an \@input line is replaced,
    in place, by the flattening of the named file (and nothing after it is read if that file cannot
    be read completely); a line command_re does not recognise contributes nothing; a \citation /
@@ -249,3 +264,10 @@ Proof. vm_compute. auto. Qed.
 Example ex_lines :
   lines_of (s2l "a" ++ [13; 10] ++ s2l "b" ++ [13] ++ [10] ++ s2l "c")%N = [s2l "a" ++ [10]; s2l "b" ++ [10]; s2l "c"]%N.
 Proof. vm_compute. reflexivity. Qed.
+
+Example ex_enough_fuel :
+  let rank := fun n : str => if str_eqb n (s2l "a.aux") then 1 else 0 in
+  rank (s2l "a.aux") < 5 /\ doc_status 5 ex_fs (s2l "a.aux") = Complete /\
+  doc_status 1 ex_fs (s2l "a.aux") = Deep /\
+  doc_status 9 (fs_of [(s2l "a.aux", ln "\@input{a.aux}")]) (s2l "a.aux") = Deep.
+Proof. vm_compute. repeat split; lia. Qed.
